@@ -412,8 +412,13 @@ def rule_numeq(repo, rep, r5):
         ntol += 1
         # every tolerance mentioned must be tested `> 0.0`
         conj = n.ast.values if isinstance(n.ast, ast.BoolOp) and isinstance(n.ast.op, ast.And) else [n.ast]
-        good = all(isinstance(cn, ast.Compare) and len(cn.ops) == 1 and isinstance(cn.ops[0], ast.Gt)
-                   and isinstance(cn.left, ast.Name) and txt(cn.comparators[0]) in ("0.0", "0") for cn in conj)
+        def positive_test(cn):
+            if not (isinstance(cn, ast.Compare) and len(cn.ops) == 1):
+                return False
+            a, op, b = cn.left, cn.ops[0], cn.comparators[0]
+            return (isinstance(a, ast.Name) and txt(b) in ("0.0", "0") and isinstance(op, ast.Gt)) or \
+                   (isinstance(b, ast.Name) and txt(a) in ("0.0", "0") and isinstance(op, ast.Lt))
+        good = all(positive_test(cn) for cn in conj)
         ret = None
         for lab, s in n.succ:
             if lab == "T":
@@ -421,11 +426,16 @@ def rule_numeq(repo, rep, r5):
         widening = False
         if ret is not None and ret.kind == "stmt" and isinstance(ret.ast, ast.Return) and isinstance(ret.ast.value, ast.Compare):
             cmpn = ret.ast.value
-            lt = txt(cmpn.left)
-            widening = (len(cmpn.ops) == 1 and isinstance(cmpn.ops[0], ast.LtE)
-                        and lt in (f"abs({x}-{y})", f"abs({y}-{x})"))
-            used = {a.id for a in ast.walk(cmpn.comparators[0]) if isinstance(a, ast.Name)} & {"relativeTolerance", "absoluteTolerance"}
-            widening = widening and used <= tols
+            dist = (f"abs({x}-{y})", f"abs({y}-{x})")
+            bound = None
+            if len(cmpn.ops) == 1 and isinstance(cmpn.ops[0], ast.LtE) and txt(cmpn.left) in dist:
+                bound = cmpn.comparators[0]
+            elif len(cmpn.ops) == 1 and isinstance(cmpn.ops[0], ast.GtE) and txt(cmpn.comparators[0]) in dist:
+                bound = cmpn.left
+            widening = bound is not None
+            if widening:
+                used = {a.id for a in ast.walk(bound) if isinstance(a, ast.Name)} & {"relativeTolerance", "absoluteTolerance"}
+                widening = used <= tols
         ok = good and widening
         r5.ob(ok, f"numeq: tolerance branch `{norm(n.stmt)}`")
         if not ok:
